@@ -393,6 +393,86 @@ func scenarioUnprintableSelecting() string {
 		counts, len(left), strings.Join(problems, " ; "), v)
 }
 
+// C10: the reply that stale-if-error sets aside has a body that never ends (or ends in an error): the caller gets the stored
+// response without waiting for it
+type stallBody struct {
+	release chan struct{}
+	fail    bool
+	sent    bool
+}
+
+func (b *stallBody) Read(p []byte) (int, error) {
+	if !b.sent {
+		b.sent = true
+		return copy(p, "partial"), nil
+	}
+	if b.fail {
+		return 0, io.ErrUnexpectedEOF
+	}
+	<-b.release
+	return 0, io.EOF
+}
+func (b *stallBody) Close() error { return nil }
+
+type sieOrigin struct {
+	mu    sync.Mutex
+	calls int
+	body  *stallBody
+}
+
+func (o *sieOrigin) RoundTrip(req *http.Request) (*http.Response, error) {
+	o.mu.Lock()
+	o.calls++
+	n := o.calls
+	o.mu.Unlock()
+	if n == 1 {
+		h := http.Header{"Cache-Control": {"max-age=0, stale-if-error=600"}, "Etag": {`"v1"`}, "Date": {time.Now().UTC().Format(http.TimeFormat)}}
+		return &http.Response{Status: "200 OK", StatusCode: 200, Proto: "HTTP/1.1", ProtoMajor: 1, ProtoMinor: 1, Header: h,
+			Body: io.NopCloser(strings.NewReader("good")), ContentLength: 4, Request: req}, nil
+	}
+	return &http.Response{Status: "503 Service Unavailable", StatusCode: 503, Proto: "HTTP/1.1", ProtoMajor: 1, ProtoMinor: 1, Header: http.Header{},
+		Body: o.body, ContentLength: -1, Request: req}, nil
+}
+
+func scenarioErrorBody(fail bool) string {
+	dsn := registerConn(memcache.Open())
+	defer unregisterConn(dsn)
+	org := &sieOrigin{body: &stallBody{release: make(chan struct{}), fail: fail}}
+	rt := httpcache.NewTransport(dsn, httpcache.WithUpstream(org))
+	u := "http://a.test/doc"
+	scDo(rt, "GET", u, nil)
+	time.Sleep(1100 * time.Millisecond)
+	done := make(chan scResp, 1)
+	go func() { done <- scDo(rt, "GET", u, nil) }()
+	var r scResp
+	hung := false
+	select {
+	case r = <-done:
+	case <-time.After(3 * time.Second):
+		hung = true
+	}
+	close(org.body.release)
+	if hung {
+		r = <-done
+	}
+	name, prop, code := "stalled-error-body", "C10", "C10:hang"
+	if fail {
+		name, prop, code = "failing-error-body", "C13", "C13:stored-response-not-returned"
+	}
+	v := "ok"
+	var problems []string
+	if hung {
+		problems = append(problems, "hang: RoundTrip had not returned after 3 s; it was waiting for the body of the 503 that stale-if-error sets aside")
+	}
+	if r.status != "STALE" || r.body != "good" {
+		problems = append(problems, fmt.Sprintf("stored-response-not-returned: got %s %q", r.status, r.body))
+	}
+	if len(problems) > 0 {
+		v = "BAD"
+	}
+	return fmt.Sprintf("SCENARIO prop=%s code=%s name=%s | answer=%s/%q hung=%v problems=%q %s\n", prop, code, name, r.status, r.body, hung, strings.Join(problems, " ; "), v)
+}
+
 func TestScenarios(t *testing.T) {
 	out := os.Getenv("VERIF_OUT")
 	if out == "" {
@@ -405,6 +485,7 @@ func TestScenarios(t *testing.T) {
 	lines = append(lines, scenarioPlaintextInEncryptedDir()...)
 	lines = append(lines, scenarioMultiLineSelecting())
 	lines = append(lines, scenarioUnprintableSelecting())
+	lines = append(lines, scenarioErrorBody(false), scenarioErrorBody(true))
 	if err := writeLines(filepath.Join(out, "scenarios.txt"), lines); err != nil {
 		t.Fatal(err)
 	}
